@@ -58,12 +58,15 @@ def minimise(prop, run, fails, budget_s=120, budget_n=300):
         progress = True
         while progress and ok():
             progress = False
-            for cand in prop.simplify(copy.deepcopy(run)):
-                if not ok():
-                    break
-                got = test(cand)
-                if got is not None:
-                    run = got
-                    progress = True
-                    break
+            try:
+                for cand in prop.simplify(copy.deepcopy(run)):
+                    if not ok():
+                        break
+                    got = test(cand)
+                    if got is not None:
+                        run = got
+                        progress = True
+                        break
+            except Exception:  # noqa: BLE001 - a simplifier bug must not
+                break          # lose the (already confirmed) violation
     return run, best_v[0], tries[0]
